@@ -37,6 +37,7 @@ def handlers : List (String × Handler) := [
   ("c04.eval", c04Eval),
   ("c04.evalReal", c04EvalReal),
   ("c04.fragment", c04Fragment),
+  ("c04.evalAst", c04EvalAst),
   ("c05.gen", c05Gen),
   ("c05.check", c05Check),
   ("c13.extract", c13Extract),
